@@ -37,6 +37,8 @@ type Env struct {
 	// views: inside the body of a recursive spec function, slice / map parameters are read through the
 	// backing array passed along with them (not through the whole heap)
 	views map[*Term]*paramView
+	// vis: inside a loop invariant of a range over a map, the set of keys yielded so far
+	vis *Term
 }
 
 type paramView struct {
@@ -947,6 +949,31 @@ func (e *Env) trCall(n *ast.CallExpr) TV {
 		}
 		hasArr := e.heap(e.state, "M."+ks+"."+vs+".has", arraySort("Int", arraySort(ks, "Bool")))
 		return TV{And(Not(Eq(m.T, IntLit(0))), Select(Select(hasArr, m.T), e.coerce(arg(1), mt.Key()))), tyBool}
+	case "visited":
+		// visited(k): key k has been yielded by the range over a map this invariant belongs to
+		if e.vis == nil {
+			e.fail("visited() outside an invariant of a range over a map")
+		}
+		return TV{Select(e.vis, arg(0).T), tyBool}
+	case "forallkey":
+		// forallkey(k, m, body): body holds for every key k present in map m
+		v, ok := n.Args[0].(*ast.Ident)
+		if !ok || len(n.Args) != 3 {
+			e.fail("forallkey(k, m, body) expected")
+		}
+		m := arg(1)
+		mt, ok := m.Ty.Underlying().(*types.Map)
+		if !ok {
+			e.fail("forallkey() over non-map")
+		}
+		ks, vs := e.sortOf(mt.Key()), e.sortOf(mt.Elem())
+		hasArr := e.heap(e.state, "M."+ks+"."+vs+".has", arraySort("Int", arraySort(ks, "Bool")))
+		c := e.child()
+		bv := Leaf("q_" + v.Name + "_" + strconv.Itoa(e.w.fresh()))
+		c.vars[v.Name] = TV{bv, mt.Key()}
+		body := c.trBool(n.Args[2])
+		pres := Select(Select(hasArr, m.T), bv)
+		return TV{A("forall", A("(("+bv.Op+" "+ks+"))"), A("!", Implies(And(Not(Eq(m.T, IntLit(0))), pres), body), Leaf(":pattern"), A("", pres))), tyBool}
 	case "keysAre":
 		// keysAre(m, k1, ..., kn): the key set of map m is exactly {k1..kn}
 		m := arg(0)
